@@ -5,6 +5,7 @@ from props.common import *
 ASSUMPTIONS = ['rule functions are modelled as pure functions List Nat -> Res (List Nat); the theorems quantify over all of them',
                'the correspondence passes closures built from finite function tables (states are one-character strings) to the real precis_core::profile::stabilize and records every call']
 TRUSTED = ['Cow borrowed/owned distinction is not modelled (content only)']
+FACT_MODULES = ['Precis.Facts.SrcTie']
 
 
 def orbit_shape(tab, start):
